@@ -895,7 +895,7 @@ class State:
     # ----- obligations
     def oblige(self, label, kind, goal, line=None, props=None, info=None):
         goal = z3.simplify(goal)
-        if z3.is_true(goal):
+        if z3.is_true(goal) and kind != 'cover':
             # still counted: trivially discharged by the simplifier
             ob = Obligation(label, kind, [], goal, line if line is not None else self.cur_line, self.path_id, props, info)
             ob.status = 'proved'
